@@ -98,6 +98,7 @@ def r_deny(ctx, config='default'):
 
 
 def r_cli(ctx, config='default'):
+    from .. import guards as guards_
     rid = 'R19.3'
     ctx.rule(rid, 'simc: prints base64 of CompiledProgram::new(text, Arguments::default(), debug).commit().encode_to_vec(); main: Err ⇒ eprintln + exit(1); no other exit, no unwrap of a library/IO/JSON result')
     fx = ctx.facts(config)
@@ -129,10 +130,10 @@ def r_cli(ctx, config='default'):
         if calls_in(src, 'simfony::CompiledProgram::commit'):
             n_ok += 1
             new = calls_in(src, 'simfony::CompiledProgram::new')
-            okp = len(new) == 1 and is_call(new[0][2][1], 'default') and 'Arguments' in (new[0][2][1][1] + new[0][2][1][3]) and bool(calls_in(new[0][2][2], 'get_flag')) and bool(calls_in(new[0][2][0], 'read_to_string'))
+            okp = len(new) == 1 and is_call(new[0][2][1], 'default') and 'Arguments' in (new[0][2][1][1] + new[0][2][1][3]) and bool(calls_in(new[0][2][2], 'get_flag')) and is_call(guards_.norm(new[0][2][0]), 'read_to_string')
             b64 = [e for e in event_calls(p, 'new') if 'Base64Display' in e[1]]
-            okp = okp and len(b64) == 1 and bool(calls_in(b64[0][2][0], 'encode_to_vec'))
-            ctx.ob(rid, 'run:commit-path', bool(okp), 'no-witness path: Base64Display(commit(CompiledProgram::new(file text, Arguments::default(), --debug flag)).encode_to_vec())', run.where(enc[0][3]), S(src)[:300])
+            okp = okp and len(b64) == 1 and guards_.norm(b64[0][2][0]) == guards_.norm(src if is_call(src, 'encode_to_vec') else ('call', enc[0][1], enc[0][2], '', None))[:3] + guards_.norm(b64[0][2][0])[3:]
+            ctx.ob(rid, 'run:commit-path', bool(okp), 'no-witness path: Base64Display of exactly commit(CompiledProgram::new(the text read from the file, unmodified; Arguments::default(); --debug flag)).encode_to_vec()', run.where(enc[0][3]), S(src)[:300])
     ctx.floor(rid, 'commit printing path', n_ok, 1)
     # unwraps in run: only on clap's required argument
     uw = []
